@@ -9,6 +9,9 @@ RULE = ("one evaluation = one queue call made by a real StdScheduler (execution 
         "stop); spurious-empty windows (for 400/30/60/90 ms Size() reports 1 or 3 while Head() and Pop() return an error wrapping quartz.ErrQueueEmpty: nothing 'fails' "
         "in the loop's eyes, so only calculateNextTick's RetryInterval and the returned empty Pop keep it from spinning); empty-pop windows (for 400/30/60/90 ms Size() and Head() answer truthfully "
         "- three stored jobs, the head due - while Pop() returns an error wrapping quartz.ErrQueueEmpty, as when another node of a shared queue claims the head); "
+        "quiet recovery (22 stand-alone scenarios): Head() answers an error wrapping quartz.ErrQueueEmpty (or the injected error) for 1..3 consecutive calls starting with its 1st / 2nd / 5th, "
+        "while Size() (1), Pop() and Push() answer truthfully; one 20 ms job scheduled before / after Start; NO API call follows the fault (nothing but the loop's own timer can wake it): the job, still "
+        "stored and not paused, must run again within 5 s (100 RetryIntervals) of the last faulty Head() returning; "
         "60 seeded random mixes (per-call failure probability 0.05..0.9, delay probability 0..0.2, operation subsets, loop/API side). Every plan runs in a "
         "supervised child process (a panic or a hang is attributed to the plan). Judged per plan by the harness's own oracle: no panic, no hang (20 s), every "
         "API call returns within 2 s, an API call returns an error that errors.Is the injected one exactly when one of its own queue calls was made to fail, no "
